@@ -733,6 +733,8 @@ impl Response {
         total_bytes: i32,
         mut bytes_read: i32) -> Result<(), String> {
 
+      // one iteration per line of the head (a call per header line exhausted the stack on long heads)
+      loop {
         let mut buffer = vec![];
         let boxed_read = cursor.read_until(b'\n', &mut buffer);
         if boxed_read.is_err() {
@@ -876,10 +878,11 @@ impl Response {
             }
 
             iteration_number += 1;
-            return Response::parse_raw_response_via_cursor(cursor, iteration_number, response, content_length, total_bytes, bytes_read );
+            continue;
         } else {
             return Err("unable to parse".to_string());
         }
+      }
     }
 
     pub fn parse_http_response_header_string(header_string: &str) -> Result<Header, String> {
